@@ -16,7 +16,7 @@ RULE_KINDS = {
     "resolver/": "structural", "instantiate/": "structural", "getattr/": "structural", "type-policy/": "structural", "unjelly/": "structural",
     "taster/": "structural", "registry/": "structural", "state/": "structural", "placeholders/": "structural", "policy/defaults-empty": "structural",
     # second layer: whole methods interpreted under modelled policies on crafted s-expressions
-    "policy-eval/": "bounded", "references/": "bounded", "references/state-dict-identity": "structural", "policy/": "bounded",
+    "policy-eval/": "bounded", "references/": "bounded", "references/state-dict-identity": "structural", "references/registered-on-every-path": "structural", "policy/": "bounded",
 }
 JELLY = "spread/jelly.py"
 TECHNIQUE = "CFG dominance + provenance on normalised _Unjellier; bounded policy scenarios second"
@@ -719,6 +719,37 @@ def check(ctx):
                       f"the default state setter does not make the unjellied state dict itself the instance's __dict__ ({'it copies its items' if copies else 'no `__dict__ = ' + sp + '` assignment'}): "
                       "placeholders of cyclic references remember (that dict, key) and patch it once the target exists, so attributes pointing back to an object still under construction "
                       "stay crefutil placeholders forever")
+
+    # ---- registering a reference: on every returning path the table entry is (over)written with the object that is returned
+    with structural(ctx, "references/registered-on-every-path", "references/table-discipline (bounded)"):
+        rf_ = next((m for _, m in meths if m.name == "_unjelly_reference"), None)
+        if rf_ is None:
+            raise Abstain("_Unjellier._unjelly_reference not found")
+        rq = base + "_Unjellier._unjelly_reference"
+        rg = ctx.cfg(rf_)
+        is_table = lambda e: isinstance(e, ast.Attribute) and e.attr == "references" and isinstance(e.value, ast.Name) and e.value.id == "self"  # noqa: E731
+        rets = rg.ids(lambda n: n.kind == "stmt" and isinstance(n.ast, ast.Return) and n.ast.value is not None)
+        ret_names = {src(rg.node(r).ast.value) for r in rets}
+        if len(ret_names) != 1 or not all(isinstance(rg.node(r).ast.value, ast.Name) for r in rets):
+            raise Abstain("the registered object is not returned as one local name")
+        obj = ret_names.pop()
+        stores = rg.ids(lambda n: n.kind == "stmt" and isinstance(n.ast, ast.Assign) and any(isinstance(t, ast.Subscript) and is_table(t.value) for t in n.ast.targets)
+                        and src(n.ast.value) == obj)
+        # everything else that touches the table must be understood: reads (.get / [k] / in), the conditional store .setdefault; anything else -> abstain
+        for x in ast.walk(rf_):
+            if is_table(x):
+                par = next((y for y in ast.walk(rf_) if any(ch is x for ch in ast.iter_child_nodes(y))), None)
+                understood = (isinstance(par, ast.Subscript) or isinstance(par, ast.Compare)
+                              or (isinstance(par, ast.Attribute) and par.attr in ("get", "setdefault", "__contains__")))
+                if not understood:
+                    raise Abstain(f"the reference table is used in a way this rule does not model ({src(par) if par is not None else 'self.references'})")
+        helper = next((call_name(c) for c in ast.walk(rf_) if isinstance(c, ast.Call) and (call_name(c) or "").startswith("self._") and call_name(c) not in known_calls), None)
+        if helper:
+            raise Abstain(f"private helper {helper} could not be inlined")
+        wit = rg.must_pass([rg.entry], stores, to=set(rets), exc=False) if stores else rg.path([rg.entry], rets, edge_ok=lambda a, b, l: l != "exc")
+        ctx.check(bool(stores) and wit is None, "references/registered-on-every-path", rq + f" | self.references[...] = {obj}",
+                  f"_unjelly_reference can return {obj} without having stored it in the reference table (a conditional store such as setdefault keeps an earlier placeholder there): "
+                  "a later dereference of the same id - the second mention of a cyclic object - gets the spent placeholder instead of the object", witness=rg.describe(wit))
 
     # ---- reference table discipline (shared and cyclic references)
     with sect(ctx, 'reference table discipline'):
